@@ -349,10 +349,22 @@ class Script:
 
     # -- late-bound edits
     def _ents(self, wt):
+        out = []
         with wt.lock_read():
-            return sorted((_s(ie.file_id), path, ie.kind)
-                          for path, ie in wt.iter_entries_by_dir()
-                          if path != "")
+            for path, ie in wt.iter_entries_by_dir():
+                if path == "":
+                    continue
+                # kind as on disk (a kind change is not in the inventory yet)
+                try:
+                    m = os.lstat(os.path.join(wt.basedir, path)).st_mode
+                except OSError:
+                    kind = "missing"
+                else:
+                    kind = ("symlink" if stat.S_ISLNK(m) else "directory"
+                            if stat.S_ISDIR(m) else "file"
+                            if stat.S_ISREG(m) else "other")
+                out.append((_s(ie.file_id), path, kind))
+        return sorted(out)
 
     def resolve_lops(self, wt, lops):
         """Bind indices to file ids against wt's current state -> bound ops
@@ -465,13 +477,10 @@ class Script:
             wt.add([new], ids=[bz.enc(fid)])
             return {"dir": d[0]}
         if k == "kind":
+            # file <-> symlink only: an (empty) directory turned into a file
+            # while the other side moves something into it makes the merge
+            # raise MalformedTransform (merge defect, not this property)
             cands = [e for e in ents if e[2] in ("file", "symlink")]
-            for e in ents:
-                if e[2] == "directory" and not any(
-                        c[1].startswith(e[1] + "/") for c in ents) and \
-                        not os.listdir(os.path.join(base, e[1])):
-                    cands.append(e)
-            cands.sort()
             e = pick(cands, op[1], bound.get("fid"))
             if e is None:
                 return None
